@@ -56,6 +56,11 @@ def run(ctx):
     for _ in range(60 if ctx.quick else 2000):
         uni = persist.bridged_over_origin_universe(rng)
         cases.append({"uni": uni, "hist": persist.pipeline_history(rng, uni), "seed": 1000 + ctx.seed, "sampled": True})
+    # areas that cover the whole ring from a seam that is not the origin (start == end), own generator
+    ring_rng = random.Random(ctx.seed + 7919)
+    for _ in range(60 if ctx.quick else 2000):
+        uni = persist.whole_ring_universe(ring_rng)
+        cases.append({"uni": uni, "hist": persist.pipeline_history(ring_rng, uni), "seed": 1000 + ctx.seed, "sampled": True})
     for idx, case in enumerate(cases):
         case["id"] = idx
     samples = []
